@@ -144,6 +144,8 @@ func c04aRelation(cs []*c04aClient, leases map[netip.Addr]net.HardwareAddr, name
 		switch {
 		case cid != "" && slices.Contains(c.cids, cid):
 			return "clientid-owner"
+		case cid != "" && c.Name == cid:
+			return "client-named-like-the-clientid"
 		case slices.Contains(c.ips, a):
 			return "exact-ip-owner"
 		case slices.Contains(c.ips, a.WithZone("")):
@@ -153,6 +155,9 @@ func c04aRelation(cs []*c04aClient, leases map[netip.Addr]net.HardwareAddr, name
 			if p.Contains(a.WithZone("")) {
 				return "cidr-owner"
 			}
+		}
+		if m, err := net.ParseMAC(cid); err == nil && slices.Contains(c.macs, string(m)) {
+			return "owner-of-the-mac-the-clientid-spells"
 		}
 		if m, ok := leases[a]; ok && slices.Contains(c.macs, string(m)) {
 			return "dhcp-mac-owner"
@@ -305,6 +310,10 @@ func c04aRegistry(ctx context.Context, rep *verifkit.Report, rng *rand.Rand, s *
 	}
 
 	cidChoices := append([]string{"", "", "unknown-cid"}, c04aCIDs...)
+	// Valid ClientIDs that spell an identifier of another kind or a client
+	// name, or resemble a registered ClientID: they belong to nobody.
+	lookalikes := []string{"aa-bb-cc-00-00-01", "aa-bb-cc-00-00-02", "10-1-1-1", "alpha", "bravo", "cid", "cid-ab"}
+	cidChoices = append(cidChoices, lookalikes...)
 	for _, src := range c04aSources {
 		a := netip.MustParseAddr(src)
 		form := c04aForm(a)
@@ -354,8 +363,15 @@ func c04aRegistry(ctx context.Context, rep *verifkit.Report, rng *rand.Rand, s *
 			}
 
 			// What the registry itself says for this ClientID and address.
+			// (Find takes any identifier text, so it is only asked about
+			// ClientIDs that cannot be read as another kind of identifier.)
 			findName := ""
-			if p, ok := st.Find(cid); cid != "" && ok {
+			if slices.Contains(lookalikes, cid) {
+				rep.Event("requests_with_clientid_spelling_another_identifier_kind")
+				if p, ok := st.Find(src); ok {
+					findName = p.Name
+				}
+			} else if p, ok := st.Find(cid); cid != "" && ok {
 				findName = p.Name
 			} else if p, ok = st.Find(src); ok {
 				findName = p.Name
